@@ -461,13 +461,19 @@ func (s *Server) handlePADT(clientMAC net.HardwareAddr, sessionID uint16) {
 		zap.String("client_mac", clientMAC.String()),
 	)
 
+	s.endSession(session)
+}
+
+// endSession releases what a session holds (its client address goes back to
+// the pool) and removes it from the session table, whichever way it ended.
+func (s *Server) endSession(session *Session) {
 	// Release IP
 	if s.clientIPPool != nil {
 		s.clientIPPool.Release(session.SessionID)
 	}
 
 	// Remove session
-	s.sessions.RemoveSession(sessionID)
+	s.sessions.RemoveSession(session.ID)
 }
 
 // handleSession handles PPPoE session packets (PPP)
@@ -637,7 +643,7 @@ func (s *Server) handleLCPTermRequest(session *Session, pkt *LCPPacket) {
 
 	// Terminate session
 	session.SetState(StateClosed)
-	s.sessions.RemoveSession(session.ID)
+	s.endSession(session)
 }
 
 // handlePAP handles PAP authentication packets
